@@ -158,6 +158,7 @@ def check_case(res: Result, ctx: Ctx, db: str, pkgdir: Path, vmask: int, kinds: 
     case_base = {"valid_mask": vmask, "kinds": list(kinds)}
     cmds: List[Tuple[str, List[str], str]] = [
         ("stub", ["stub", M], M), ("stub-v", ["-v", "stub", M], M), ("stub-sample-count", ["stub", "--sample-count", M], M), ("stub-spec", ["stub", M + ":good"], M), ("stub-spec-cls", ["-v", "stub", M + ":Cls"], M),
+        ("stub-diff", ["stub", "--diff", M], M), ("stub-diff-v", ["-v", "stub", "--diff", M], M),
     ]
     if do_apply:
         cmds += [("apply", ["apply", M], M), ("apply-v", ["-v", "apply", M], M)]
@@ -209,7 +210,21 @@ def check_case(res: Result, ctx: Ctx, db: str, pkgdir: Path, vmask: int, kinds: 
                 rcnt = sorted(l for l in rerr.splitlines() if l.startswith("Annotation for "))
                 if cnt != rcnt:
                     res.violate(Violation(ID, "report", f"sample-count:{kindsig}", case, f"`{' '.join(argv)}` reports {cnt}, the decodable rows alone give {rcnt}"))
+            if name in ("stub-v", "apply-v"):
+                # the same command over a store of the project's own whose thunks offer nothing but to_trace()
+                src_file.write_text(orig_src)
+                mcfg.STATE["bare_thunks"] = True
+                try:
+                    rc_b, out_b, err_b = run_cli(argv)
+                finally:
+                    mcfg.STATE["bare_thunks"] = False
+                res.transitions += 1
+                if (rc_b, out_b, err_b) != (rc, out, err):
+                    res.violate(Violation(ID, "fatal" if rc_b != 0 else "output", f"custom-store-thunks:{kindsig}", case, f"`{' '.join(argv)}` over a custom store whose thunks have only to_trace(): rc={rc_b}, stderr tail {err_b[-300:]!r}; over the SQLite store rc={rc}, stderr tail {err[-200:]!r}"))
+                src_file.write_text(after)
             got_bad = count_failures(err, verbose)
+            if "--diff" in argv and verbose and got_bad == 2 * n_bad:
+                got_bad = n_bad   # (--diff decodes the rows once per annotation strategy: each skipped row is named twice)
             if got_bad != n_bad:
                 res.violate(Violation(ID, "report", f"count:{kindsig}", case, f"`{' '.join(argv)}` reported {got_bad} skipped traces, {n_bad} rows are undecodable; stderr: {err[-300:]}"))
             if n_good == 0 and "No traces found" not in err:
